@@ -169,7 +169,7 @@ def _gro_obs(ag):
 
 
 def _top_obs(at):
-    return (str(at.name), str(at.resname), int(at.resid))
+    return (str(at.name), str(at.resname), int(at.resid), int(at.index), tuple(sorted(int(b) for b in at.bonds)))
 
 
 def kind_of(o):
@@ -210,13 +210,15 @@ def top_atoms(o):
 
 def observe(o):
     """canonical observation of a handle: ('M', name, [(gro, top)…]) | ('R', [gro…]) |
-    ('G', gro) | ('A', gro, top)"""
+    ('G', gro) | ('A', gro, top) | ('MR', name, [top…], [[gro…]…]) for a Molecule whose residues hold
+    another number of atoms than its topology (after `remove_atom` on one of its residues)"""
     k = kind_of(o)
     if k == "mol":
         gs = gro_atoms(o)
         ts = top_atoms(o)
         if len(gs) != len(ts):
-            return ("X",)
+            return ("MR", str(o.molecule_top.name), tuple(_top_obs(t) for t in ts),
+                    tuple(tuple(_gro_obs(g) for g in res) for res in o.residues))
         return ("M", str(o.molecule_top.name), tuple((_gro_obs(g), _top_obs(t)) for g, t in zip(gs, ts)))
     if k == "res":
         return ("R", tuple(_gro_obs(g) for g in o))
@@ -231,6 +233,8 @@ def gro_part(ob):
     """the gro-side observables of an observation (coordinates, velocities, numbers, gro labels)"""
     if ob[0] == "M":
         return tuple(g for g, _ in ob[2])
+    if ob[0] == "MR":
+        return tuple(g for res in ob[3] for g in res)
     if ob[0] == "R":
         return ob[1]
     if ob[0] in ("G", "A"):
@@ -241,6 +245,8 @@ def gro_part(ob):
 def top_part(ob):
     if ob[0] == "M":
         return (ob[1],) + tuple(t for _, t in ob[2])
+    if ob[0] == "MR":
+        return (ob[1],) + tuple(ob[2])
     if ob[0] == "A":
         return (ob[2],)
     return ()
@@ -313,7 +319,26 @@ class Cursor:
         return (resid, resname, name, atomid, pos, vel)
 
     def top(self):
-        return (self.str(), self.str(), self.int())
+        name, resname, resid, index = self.str(), self.str(), self.int(), self.int()
+        return (name, resname, resid, index, tuple(self.int() for _ in range(self.int())))
+
+    def pyval(self):
+        k = self.tok()
+        if k == "int":
+            return ("int", self.int())
+        if k == "str":
+            return ("str", self.str())
+        if k == "vec":
+            return ("vec", (self.flt(), self.flt(), self.flt()))
+        if k == "none":
+            return ("none",)
+        if k == "nats":
+            return ("nats", tuple(self.int() for _ in range(self.int())))
+        if k == "bool":
+            return ("bool", bool(self.int()))
+        if k == "opaque":
+            return ("opaque",)
+        raise ValueError("bad pyval kind " + k)
 
     def obs(self):
         k = self.tok()
@@ -321,6 +346,11 @@ class Cursor:
             name = self.str()
             n = self.int()
             return ("M", name, tuple((self.gro(), self.top()) for _ in range(n)))
+        if k == "MR":
+            name = self.str()
+            tops = tuple(self.top() for _ in range(self.int()))
+            return ("MR", name, tops, tuple(tuple(self.gro() for _ in range(self.int()))
+                                            for _ in range(self.int())))
         if k == "R":
             n = self.int()
             return ("R", tuple(self.gro() for _ in range(n)))
@@ -385,6 +415,8 @@ class World:
         self.keep = []         # keep helper objects (System, Alignment) alive
         self.em = None
         self.unexpected = []   # exceptions that look like in-place mutation of inputs
+        self._gparent = {}     # union-find over gro provenance classes (`a + b` of two AtomGro objects
+                               # builds a Residue out of the operands themselves: the classes merge)
 
     # -- provenance classes
     def new_g(self):
@@ -394,6 +426,18 @@ class World:
     def new_t(self):
         self._t += 1
         return self._t
+
+    def find(self, g):
+        """representative of a gro provenance class"""
+        while g in self._gparent:
+            g = self._gparent[g]
+        return g
+
+    def union(self, a, b):
+        a, b = self.find(a), self.find(b)
+        if a != b:
+            self._gparent[b] = a
+        return a
 
     def ro(self, a):
         a = np.array(a, dtype=float)
@@ -474,9 +518,10 @@ class World:
                     if isinstance(arr, np.ndarray):
                         addr = arr.__array_interface__["data"][0]
                         prev = seen.get(addr)
-                        if prev is not None and prev != m["g"]:
-                            return (prev, m["g"])
-                        seen[addr] = m["g"]
+                        cls = self.find(m["g"])
+                        if prev is not None and prev != cls:
+                            return (prev, cls)
+                        seen[addr] = cls
         return None
 
 
